@@ -114,7 +114,7 @@ fn gen_def(rng: &mut Rng, cid: usize, stats: &mut Stats) -> String {
             format!("reg def c{} kind={} name={} help={} consts={} vars={} children={}", cid, kind, hex(name), hex(help), pairs_str(&consts), hex_list(&vars), if ch.is_empty() { "none".to_string() } else { ch.join(";") })
         }
         "custom" => {
-            let n = rng.range(1, 3); let mut subs = vec![];
+            let n = if rng.chance(12) { 0 } else { rng.range(1, 3) }; let mut subs = vec![];   // n = 0: a collector without descriptors (collector id 0)
             for _ in 0..n { let nm = *rng.pick(NAMES); let hp = if rng.chance(85) { "h" } else { "help" }; let mut cs: Vec<(String, String)> = vec![]; for (k, vs) in cpool { if rng.chance(35) { cs.push((k.to_string(), rng.pick(vs).to_string())); } }
                 subs.push(format!("sub={}/{}/{}/{}", hex(nm), hex(hp), pairs_str(&cs), f64_hex(rng.below(4) as f64))); }
             format!("reg def c{} kind=custom name={} help={} consts=- vars=- {}", cid, hex(name), hex(help), subs.join(" "))
@@ -160,6 +160,8 @@ impl Area for RegArea {
             s(&["reg new prefix=none labels=61:636f6d6d6f6e", "reg def c0 kind=counter name=6d help=68 consts=61:6f776e vars=- val=3ff0000000000000", "reg register c0", "reg gather"]),
             // an empty vector of another kind under the same name contributes nothing: the family keeps the type of the collector that has samples
             s(&["reg new prefix=none labels=none", "reg def c0 kind=countervec name=6d help=68 consts=6b:31 vars=6c children=none", "reg def c1 kind=gaugevec name=6d help=68 consts=6b:32 vars=6c children=61;62", "reg register c0", "reg register c1", "reg gather", "reg unregister c0", "reg register c0", "reg gather"]),
+            // a collector without descriptors can be registered once, not twice; unregistering it frees the slot
+            s(&["reg new prefix=none labels=none", "reg def c0 kind=custom name=6d help=68 consts=- vars=-", "reg def c1 kind=custom name=78 help=68 consts=- vars=-", "reg register c0", "reg register c1", "reg gather", "reg unregister c1", "reg register c1", "reg register c0"]),
             // K2 witness (known finding): counter and gauge under one name
             s(&["reg new prefix=none labels=none", "reg def c0 kind=counter name=6d help=68 consts=6b:31 vars=- val=3ff0000000000000", "reg def c1 kind=gauge name=6d help=68 consts=6b:32 vars=- val=4000000000000000", "reg register c0", "reg register c1", "reg gather"]),
         ]
@@ -260,6 +262,10 @@ impl Area for RegArea {
                     let want_s: Vec<String> = want.iter().map(|(n, (h, t, ss))| { let mut ss = ss.clone(); ss.sort_by(|a, b| (a.0.len(), a.0.iter().map(|p| p.1.clone()).collect::<Vec<_>>()).cmp(&(b.0.len(), b.0.iter().map(|p| p.1.clone()).collect::<Vec<_>>())));
                         format!("{}^{}^{}^{}", hex_list(&[&match &prefix { Some(p) => format!("{}_{}", p, n), None => n.clone() }]), hex_list(&[h]), t, ss.iter().map(|(l, v)| { let mut l = l.clone(); l.extend(cl.iter().cloned()); format!("{}={}@0", pairs_str(&l), v) }).collect::<Vec<_>>().join(";")) }).collect();
                     let got_s = show_gather(&got);
+                    // two registered collectors never own an equal descriptor (same name and const values): a family mixing the types of
+                    // two such collectors is not the known finding (which needs legitimately admitted collectors) but an admission failure
+                    let dup_identity = (0..registered.len()).any(|i| (0..i).any(|j| registered[i].2 != registered[j].2 && registered[i].0.iter().any(|x| registered[j].0.iter().any(|y| x.fq == y.fq && x.const_vals == y.const_vals))));
+                    if mixed && dup_identity { fails.push(Failure { class: "family-mixes-types".into(), detail: format!("collectors of different kinds that own an EQUAL descriptor are registered together: {:?}; gathered: {}", kinds, show_gather(&got)) }); }
                     if mixed { stats.hit("gather:mixed-kinds");
                         fails.push(Failure { class: "mixed-kinds-same-name".into(), detail: format!("collectors of different kinds share a name: {:?}; gathered: {}", kinds, got_s) });
                         outs.push("mixed-types".into());
